@@ -228,9 +228,12 @@ func (x *recExtender) Extend(ctx context.Context, ps *seg.PathSegment, ingress, 
 	w.extends++
 	if err != nil {
 		w.r.Logf("extend %s in=%d eg=%d peers=%v n=%d -> error %s", x.a.IA, ingress, egress, peers, len(pre), errClass(err))
-		if w.inOriginate && time.Since(w.T0) < 15*time.Minute {
-			// every AS holds a certificate valid from before the start for at least 20 minutes: a world in
-			// which not even an origination works would make every check pass vacuously
+		if w.inOriginate && time.Since(w.T0) < 14*time.Minute {
+			// every AS holds a certificate valid from before the start for at least 20 minutes, and the
+			// shortest hop lifetime is 5m37.5s, so an origination must work during the first 14 minutes
+			// (it was 15: infra error of the thorough tier, seed 3, an origination at 14m33s legitimately
+			// refused with "duration too small"): a world in which not even an origination works would
+			// make every check pass vacuously
 			// (raised by the simulator goroutine after Run returns; this code runs inside a goroutine of the Originator)
 			w.infra = fmt.Sprintf("origination at %s with a valid signer failed: %v", x.a.IA, err)
 		}
